@@ -321,6 +321,25 @@ class FineRun:
         for f in traced_functions():
             self.k.trace_lines(f)
         self.anchors, self.missing = build_anchors()
+        # a statement that is gone cannot be stopped at: its successors take its place
+        gone = {m.split(' ')[0] for m in self.missing}
+        self.succ = {}
+        for who in ('main', 'inc'):
+            known = set(self.anchors[who].values())
+            eff = {}
+            for lab, nxt in SUCC[who].items():
+                todo, seen, res = list(nxt), set(), set()
+                while todo:
+                    x = todo.pop()
+                    if x in seen:
+                        continue
+                    seen.add(x)
+                    if x in gone or (x not in known and x in SUCC[who] and x not in ('hrClear', 'hcRebind')):
+                        todo += list(SUCC[who].get(x, ()))
+                    else:
+                        res.add(x)
+                eff[lab] = res
+            self.succ[who] = eff
         self.pc = {'main': 'boot', 'inc': 'boot'}
         self.sent = {k: 0 for k in KINDS}
         self.store = {}          # address tuple -> RuntimeTask as received from the worker (or the root)
@@ -355,7 +374,7 @@ class FineRun:
     def advance(self, who, succ=None, limit=4000):
         """Run thread `who` alone until it reaches one of the anchors that can follow its current one."""
         t = self.th[who]
-        succ = SUCC[who].get(self.pc[who], set()) if succ is None else succ
+        succ = self.succ[who].get(self.pc[who], set()) if succ is None else succ
         n = 0
         while True:
             if t.state == 'done':
@@ -608,6 +627,13 @@ class FineRun:
         self.run.snapshot(final=False, settled=status == 'quiescent')
         self.run.snapshot(final=True, settled=False)
         trace, diag = self.run.finish(status)
+        try:
+            w = self.net.workers['w0']
+            for t in list(w._tasks.values()) + list(w._delayed_tasks) + list(self.store.values()):
+                if getattr(t, 'coro', None) is not None:
+                    t.coro.close()
+        except Exception:
+            pass
         self.net.crash('w0')
         for t in list(self.k.threads):
             if t.state != 'done':
@@ -922,7 +948,8 @@ class Handle:
         self.ex = ThreadPoolExecutor(6 if ctx.quick else 8)
         w = 2 if ctx.quick else 4
         self.f_exh = {n: self.ex.submit(tlc_exhaustive, ctx.scratch, n, True, w) for n in self.plan['exh']}
-        self.f_cex = {n: self.ex.submit(tlc_exhaustive, ctx.scratch, n, True, w) for n in self.plan['cex']}
+        # one TLC worker: breadth-first search then returns the same (shortest) counterexample every time
+        self.f_cex = {n: self.ex.submit(tlc_exhaustive, ctx.scratch, n, True, 1) for n in self.plan['cex']}
         self.f_sim = {n: self.ex.submit(tlc_simulate, ctx.scratch, n, k, ctx.seed + 11) for n, k in self.plan['sim'] + self.plan['adv']}
 
     def result(self):
@@ -995,7 +1022,7 @@ class Handle:
             if r['kind'] == 'record':
                 recorded.setdefault(r['name'], []).append(r['events'])
                 continue
-            if r['mode'] == 'schedule':
+            if r['mode'] == 'schedule' or r['verdict'] == 'unobservable':
                 nadv += 1
                 nskip += r['skipped']
                 continue
@@ -1050,6 +1077,83 @@ def merge(model_cov, fcov):
     return model_cov
 
 
+def _late_mailbox_residue(tr, step):
+    """Did the owner task of the left-over mailbox the L1 verdict at event `step` (1-based, a Quiescent event) is about go on
+    executing (any event of its body) after it had become cancelled work?  Computed from the L1 trace alone, for the
+    known-finding key: the known defect needs a task that is executing when its cancellation is handled."""
+    ev = tr['ev']
+    parent = tr['parent']
+
+    def anc(k):
+        out = set()
+        while k:
+            out.add(k)
+            k = parent[k - 1]
+        return out
+    futs = {}                 # f -> dict(owner, kids, consumed, cancelled_at, submit_at)
+    comp_cancel_at = {}
+    for n, e in enumerate(ev[:step], 1):
+        k = e['e']
+        if k == 'Submit':
+            futs[e['f']] = {'owner': e['t'], 'kids': list(e['kids']), 'consumed': False, 'cancelled_at': None, 'submit_at': n}
+        elif k == 'AwaitReturn' and e['f'] in futs:
+            futs[e['f']]['consumed'] = True
+        elif k == 'Cancel' and e['f'] in futs and futs[e['f']]['cancelled_at'] is None:
+            futs[e['f']]['cancelled_at'] = n
+        elif k == 'TaskEnd':
+            for f in futs.values():
+                if f['owner'] == e['t'] and not f['consumed'] and f['cancelled_at'] is None:
+                    f['cancelled_at'] = n
+        elif k == 'ClientCall' and e['call'] in ('cancel', 'close'):
+            for c in range(1, tr['nc'] + 1):
+                if tr['cowner'][c - 1] == e['c'] and (e['call'] == 'close' or e['cid'] == c):
+                    comp_cancel_at.setdefault(c, n)
+        elif k == 'ClientReturn' and e['kind'] == 'error':
+            for c in range(1, tr['nc'] + 1):
+                if tr['cowner'][c - 1] == e['c']:
+                    comp_cancel_at.setdefault(c, n)
+
+    def cancelled_at(task):
+        times = [f['cancelled_at'] for f in futs.values() if f['cancelled_at'] is not None and set(f['kids']) & anc(task)]
+        c = tr['tcomp'][task - 1]
+        if c in comp_cancel_at:
+            times.append(comp_cancel_at[c])
+        return min(times) if times else None
+    for r in ev[step - 1]['residue']:
+        if r['kind'] == 'task':
+            if 1 <= r['id'] <= tr['nt'] and cancelled_at(r['id']) is not None:
+                return False
+        elif r['kind'] == 'future' and r['id'] in futs:
+            f = futs[r['id']]
+            own = cancelled_at(f['owner'])
+            if f['cancelled_at'] is not None or own is not None:
+                body = ('TaskStart', 'Submit', 'AwaitCall', 'AwaitReturn', 'NextReturn', 'Cancel', 'TaskEnd', 'TaskRaise')
+                return bool(r['tab'] == 'worker.mailboxes' and own is not None
+                            and any(x['e'] in body and x['t'] == f['owner'] for x in ev[own:step]))
+        elif r['kind'] == 'comp' and r['id'] in comp_cancel_at:
+            return False
+    return False
+
+
+def annotate_residue(out):
+    """Key field for known-finding matching: a left-over mailbox of cancelled work whose owner went on executing after its
+    cancellation (the owner was running when the CANCEL was handled) - needs rtcheck.validate(keep_items=True)."""
+    items = getattr(out, 'items', None) or []
+    by_clients = {id(sc.get('clients')): tr for tr, dg, sc in items}
+    for v in out.violations:
+        if not v.clause.startswith('residue-of-cancelled-work:worker.mailboxes'):
+            continue
+        tr = by_clients.get(id(v.replay.get('scenario', {}).get('clients')))
+        m = re.search(r'at event (\d+)', v.detail)
+        if tr is None or not m:
+            continue
+        try:
+            v.key['owner_ran_after_its_cancellation'] = _late_mailbox_residue(tr, int(m.group(1)))
+        except (KeyError, IndexError, TypeError):
+            pass
+    out.items = None
+
+
 def replay_outcome(prop, ctx, also=()):
     """--replay of a violation that came from a WorkerFine execution."""
     from harness import rtcheck
@@ -1062,7 +1166,9 @@ def replay_outcome(prop, ctx, also=()):
         o = record_run(f['cfg'], f['seed'])
     else:
         o = replay(f['cfg'], f['beh'], mode=f['mode'], seed=f['seed'])
-    return rtcheck.validate(prop, [], ctx, also=also, extra_traces=[(o['trace'], o['diag'], o['scenario'])])
+    out = rtcheck.validate(prop, [], ctx, also=also, extra_traces=[(o['trace'], o['diag'], o['scenario'])], keep_items=True)
+    annotate_residue(out)
+    return out
 
 
 if __name__ == '__main__':
